@@ -444,13 +444,19 @@ def mk_kwargs(st, keys=("X", "Y", "Z", "F", "S", "E", "K"), comment=True, prefix
     return st.alloc("dict", {"$d": d}), AND(*wfs), reals
 
 
-def mk_builder(st, world, transform="identity", hooks=0, cls="GCodeBuilder", prefix="g"):
+def mk_builder(st, world, transform="identity", hooks=0, cls="GCodeBuilder", prefix="g", fresh_params=False):
     """GCodeBuilder in an arbitrary reachable-shaped state: every tracked field symbolic; core and state share the
     remembered-parameters dict (as they do after the first tracked move); distance modes of core and state agree
     (wf_core: both are only ever written together, by set_distance_mode)."""
     wfs, reals = [], []
     pref, wf, r = mk_params(st, prefix + "P"); wfs.append(wf); reals += r
-    sref, wf, info = mk_state(st, world, prefix + "S", params_ref=pref); wfs.append(wf); reals += info["reals"]
+    spref = pref
+    if fresh_params:
+        # the state of a freshly constructed builder: core and state hold two distinct, empty parameter dicts (they become one object at the first tracked move)
+        d = st.heap[pref.oid]["$d"]
+        for k in d.present: d.present[k] = F
+        spref = st.alloc("ParamsDict", {"$d": VDict({k: F for k in d.present}, dict(d.vals), True)})
+    sref, wf, info = mk_state(st, world, prefix + "S", params_ref=spref); wfs.append(wf); reals += info["reals"]
     fmt = st.alloc("DefaultFormatter", {})
     tf, treals = affine_fields(prefix + "T", identity=(transform == "identity")); reals += treals
     tr = st.alloc("CoordinateTransformer", tf)
